@@ -821,20 +821,24 @@ theorem yearly_inv (yearOf : Int → Int) (total : Int → Rat) {days : List Int
 
 /-! ### assembled facts about a completed run -/
 
+theorem secWalk_isOrder {σ : List Nat → List Nat} (h : IsOrder σ) : IsOrder (secWalk σ) :=
+  fun l => (sortNats_perm (σ l)).trans (h l)
+
+
 /-- Facts about a completed run, assembled once. -/
 theorem run_facts {yearOf : Int → Int} {rows : List Row} {σ : List Nat → List Nat} {τ : List Int → List Int}
     (hwf : WF rows) (hσ : IsOrder σ) (hτ : IsOrder τ) {c : Result}
     (h : calcTotalCosts yearOf rows σ τ = .ok c) :
-    ∃ st, Inv1 rows st ∧ Inv2 rows st (sortDays (τ st.days)) (loop2 st σ τ) ∧
-      c = { secs := st.secs, days := sortDays (τ st.days), tab := (loop2 st σ τ).tab,
-            yearly := yearly yearOf (loop2 st σ τ).tab.total st.days τ, notes := st.notes } := by
+    ∃ st, Inv1 rows st ∧ Inv2 rows st (sortDays (τ st.days)) (loop2 st (secWalk σ) τ) ∧
+      c = { secs := st.secs, days := sortDays (τ st.days), tab := (loop2 st (secWalk σ) τ).tab,
+            yearly := yearly yearOf (loop2 st (secWalk σ) τ).tab.total st.days τ, notes := st.notes } := by
   unfold calcTotalCosts at h
   split at h
   · cases h
   · rename_i st hst
     have inv : Inv1 rows st := by simpa using loop1_inv (P := []) rows Inv1.init hst
     simp only [Except.ok.injEq] at h
-    exact ⟨st, inv, loop2_inv hwf inv hσ hτ, h.symm⟩
+    exact ⟨st, inv, loop2_inv hwf inv (secWalk_isOrder hσ) hτ, h.symm⟩
 
 theorem mem_dedup {α : Type} [DecidableEq α] (l : List α) (x : α) : x ∈ dedup l ↔ x ∈ l := by
   induction l with
